@@ -92,6 +92,10 @@ class AlgebraProfile(StoreProfile):
             pool = ents
             if rng.random() < 0.12:
                 pool = typed_prefixes(m, ents) or ents
+            elif run.params.get("crowd") and rng.random() < 0.5:
+                from .base import CROWD_NAMES
+                cs = set(CROWD_NAMES)
+                pool = [e for e in ents if cs & set(e.split("/"))] or ents     # the crowded directory's entities
             elif rng.random() < 0.25:
                 # entities with a free field that only lives in the file name (where globbing can confuse values)
                 v = self.vocab(run)
@@ -113,6 +117,8 @@ class AlgebraProfile(StoreProfile):
         segs = base.split("/")
         n = len(segs)
         rule = rng.choice(RULES)
+        if run.params.get("crowd") and rng.random() < 0.4:
+            rule = "comma"
         party = rng.choice(["P:" + m.default_config, "P:" + m.configs[-1], "L:" + m.default_config, "A", "A"])
         # a host search: some segments starred
         host = list(segs)
@@ -142,11 +148,22 @@ class AlgebraProfile(StoreProfile):
             if not vals:
                 return None
             frees = [i for i in range(n) if m.vocab(tn, t.keys[i])[0] == "free"]
-            if frees and rng.random() < 0.04:
+            if frees and rng.random() < (0.25 if run.params.get("crowd") else 0.03):
                 # a very wide list: the search unfolds into dozens of typed searches
                 from .base import CROWD_NAMES
                 j = rng.choice(frees)
-                alts = [segs[j]] + rng.sample(CROWD_NAMES[:100], rng.randint(22, 34))
+                # prefer values that exist (a crowded directory), so that a lost alternative loses results
+                ents = run.store.listing(m.default_config)
+                have = sorted({e.split("/")[j] for e in ents if m.natural_type(e) and len(e.split("/")) > j
+                               and e.split("/")[:j] == segs[:j]} - {segs[j]})
+                rng.shuffle(have)
+                k = rng.randint(22, 34)
+                alts = [segs[j]] + have[:k]
+                if len(alts) <= k:
+                    alts += rng.sample([c for c in CROWD_NAMES[:100] if c not in alts], k + 1 - len(alts))
+                for q in range(j + 1, n):
+                    if rng.random() < 0.7:
+                        host[q] = "*"      # more types accept the string: more typed searches per alternative
                 rng.shuffle(alts)
                 h = list(host)
                 h[j] = ",".join(alts)
